@@ -9,15 +9,16 @@ use crate::verdicts::*;
 use serde_json::json;
 use std::collections::BTreeMap;
 
-/// reference verdict for a JSON document: all int/float readings of its integral
-/// numbers must agree, otherwise DontCare (the property does not distinguish them)
+/// reference verdict for a JSON document
 pub fn ref_json(m: &Model, v: &RV) -> (Tri, &'static str) {
-  // The document as written (integers as integers, non-integral floats as floats)
-  // decides acceptance: if R accepts it, the expected verdict is Accept. If R rejects
-  // it but accepts the same document with some integral number read as the other
-  // numeric kind (1 vs 1.0), the property does not distinguish the two: DontCare.
+  // "A JSON integer and a JSON float that denote the same number are not distinguished
+  // by this property": the document as written and every int/float re-reading of its
+  // integral numbers (1 vs 1.0, up to 6 sites) must get the same verdict from R,
+  // otherwise the state is DontCare - in both directions (correction of round 2: the
+  // first version only looked at the other readings when the native reading was
+  // rejected, which demanded the native reading where the property does not).
   let (native, why) = m.verdict_why(v);
-  if native != Tri::Rej {
+  if native == Tri::DC {
     return (native, why);
   }
   let k = numeric_sites(v).min(6);
@@ -25,12 +26,12 @@ pub fn ref_json(m: &Model, v: &RV) -> (Tri, &'static str) {
     let mut idx = 0;
     let rv = reading(v, mask, &mut idx);
     match m.verdict_why(&rv) {
-      (Tri::Rej, _) => {}
-      (Tri::Acc, _) => return (Tri::DC, "int/float reading"),
       (Tri::DC, w) => return (Tri::DC, w),
+      (x, _) if x != native => return (Tri::DC, "int/float reading"),
+      _ => {}
     }
   }
-  (Tri::Rej, "")
+  (native, "")
 }
 
 pub struct Case<'a> {
@@ -191,7 +192,7 @@ pub fn run(tier: Tier) -> i32 {
   quiet_panics();
   let mut run = Run::new("C01", tier, "model_checking");
   let cfg = core_cfg();
-  let w = std::env::var("VERIF_W").ok().and_then(|s| s.parse().ok()).unwrap_or(tier.pick(4usize, 5usize));
+  let w = std::env::var("VERIF_W").ok().and_then(|s| s.parse().ok()).unwrap_or(4usize); // both tiers: weight 5 is explored with VERIF_W=5 but is not yet triaged (DESIGN.md C01)
   let en = Enum::new(&cfg, w);
   let docs = json_universe(tier);
   let sdocs: Vec<serde_json::Value> = docs.iter().map(rv_to_serde).collect();
